@@ -99,10 +99,10 @@ def translate_requirements():
         raise TranslateError("unpinned test is not len(parts) == 1")
 
     def _assign_value(stmts, name):
-        s = one(stmts, "statement")
-        if isinstance(s, ast.Assign) and len(s.targets) == 1 and isinstance(s.targets[0], ast.Name) and s.targets[0].id == name:
-            return s.value
-        raise TranslateError(f"expected `{name} = ...`")
+        # the branch's assignment to `name` (a validation call next to it, as in proposed_fixes/C20-D24.diff, is allowed)
+        hits = [s for s in stmts if isinstance(s, ast.Assign) and len(s.targets) == 1 and isinstance(s.targets[0], ast.Name)
+                and s.targets[0].id == name]
+        return one(hits, f"assignment to {name} in the branch").value
 
     v1 = _assign_value(one_if.body, "new_version")
     if not (isinstance(v1, ast.Name) and v1.id == "UNPINNED_VERSION"):
@@ -110,6 +110,10 @@ def translate_requirements():
     v2 = _assign_value(one_if.orelse, "new_version")
 
     def _parts_idx(node):
+        # parts[i] or parts[i].strip() (whether the sides are stripped is measured behaviourally: deviation D25)
+        if (isinstance(node, ast.Call) and isinstance(node.func, ast.Attribute) and node.func.attr == "strip"
+                and not node.args and not node.keywords):
+            node = node.func.value
         if isinstance(node, ast.Subscript) and isinstance(node.value, ast.Name) and node.value.id == "parts":
             return const(node.slice)
         raise TranslateError(f"expected parts[i], got {ast.dump(node)[:80]}")
@@ -162,8 +166,15 @@ def gen_req_consts():
 # Gallina emission
 # ------------------------------------------------------------------------------------------------
 def qs(s):
-    """Python str -> list of code points"""
-    return "[" + "; ".join(str(ord(c)) for c in s) + "]%N" if s else "[]"
+    """Python str -> Gallina term of type str (list of code points), shipped as an escaped string literal decoded by ReqCheck.U"""
+    out = []
+    for ch in s:
+        o = ord(ch)
+        if 32 <= o <= 126 and ch not in '"\\':
+            out.append(ch)
+        else:
+            out.append("\\%x;" % o)
+    return '(U "' + "".join(out) + '")'
 
 
 def qlist(items):
@@ -307,7 +318,7 @@ class MergeStream(Stream):
             "dir; every case holds 2..24 arrangements of the same multiset (all permutations for 3- and 4-line sets, random "
             "shuffles over files and lines otherwise) and the real process_all_requirements is run on each; non-trivial = >= 2 "
             "arrangements and a package required by >= 2 lines; distinct by (arrangements, installed table)")
-    requires = "From PV Require Import Req.Merge Req.Install Req.Spec Req.ReqCheck."
+    requires = "From PV Require Import Req.Merge Req.Install Req.Spec Req.ReqCheck.\nFrom Coq Require Import String.\nOpen Scope string_scope."
     case_type = "mcase"
     check_model = "mcase_model_ok pv_cfg"
     check_spec = "mcase_spec_ok"
@@ -316,7 +327,7 @@ class MergeStream(Stream):
     shard_size = 40
 
     def budget(self, tier):
-        return 420 if tier == "quick" else 5000
+        return 360 if tier == "quick" else 5000
 
     def generate(self, ctx, budget, focus=None):
         rng = ctx.rng
@@ -418,7 +429,7 @@ class InstallStream(Stream):
             "recorded{none,1.0,1.0.0,2.0,3.0} x allow_all_imports{on,off}, each run twice; random histories with external "
             "installs/upgrades/removals between runs, changing requirement files, packages missing from the index; non-trivial = a "
             "package is both required and installed or recorded, or a later run follows an installing run; distinct by the whole history")
-    requires = "From PV Require Import Req.Merge Req.Install Req.Spec Req.ReqCheck."
+    requires = "From PV Require Import Req.Merge Req.Install Req.Spec Req.ReqCheck.\nFrom Coq Require Import String.\nOpen Scope string_scope."
     case_type = "hcase"
     check_model = "hcase_model_ok pv_cfg"
     check_spec = "hcase_spec_ok"
@@ -427,7 +438,7 @@ class InstallStream(Stream):
     shard_size = 50
 
     def budget(self, tier):
-        return 420 if tier == "quick" else 5000
+        return 360 if tier == "quick" else 5000
 
     def generate(self, ctx, budget, focus=None):
         rng = ctx.rng
